@@ -179,10 +179,27 @@ def vm_crosscheck(entry, inputs, results, name):
 
 
 def run_impl(module, cases, timeout=900, per_case=10):
+    """run the cases against the implementation in child processes, one per shard of the case list"""
+    jobs = int(os.environ.get("VERIF_JOBS", "12"))
+    if len(cases) < 48 or jobs <= 1:
+        return run_impl_shard(module, cases, timeout, per_case, "0")
+    from concurrent.futures import ThreadPoolExecutor
+    n = min(jobs, len(cases) // 8)
+    shards = [list(range(k, len(cases), n)) for k in range(n)]
+    obs = [None] * len(cases)
+    with ThreadPoolExecutor(max_workers=n) as ex:
+        futs = [ex.submit(run_impl_shard, module, [cases[i] for i in idx], timeout, per_case, str(k)) for k, idx in enumerate(shards)]
+        for idx, fu in zip(shards, futs):
+            for i, o in zip(idx, fu.result()):
+                obs[i] = o
+    return obs
+
+
+def run_impl_shard(module, cases, timeout, per_case, tag):
     """run harness.impl.<module>.run_case on every case in a child process (watchdog inside)"""
     os.makedirs(WORK, exist_ok=True)
-    inp = os.path.join(WORK, "impl_in_%s_%d.json" % (module, os.getpid()))
-    outp = os.path.join(WORK, "impl_out_%s_%d.json" % (module, os.getpid()))
+    inp = os.path.join(WORK, "impl_in_%s_%d_%s.json" % (module, os.getpid(), tag))
+    outp = os.path.join(WORK, "impl_out_%s_%d_%s.json" % (module, os.getpid(), tag))
     with open(inp, "w") as f:
         json.dump({"cases": cases, "per_case": per_case}, f)
     if os.path.exists(outp):
@@ -363,7 +380,13 @@ def run_prop(prop, tier, seed, replay=None):
         if mouts is None:
             broken.append("model runner failed: " + merr)
         else:
-            k = min(40, len(cases))
+            # the first cases, up to 40 and up to a size that vm_compute's literal parsing handles in seconds
+            k, budget = 0, 60000
+            while k < min(40, len(cases)):
+                budget -= len(sxp.dumps(minputs[k])) + len(sxp.dumps(mouts[k]))
+                if budget < 0 and k >= 3:
+                    break
+                k += 1
             okx, msg = vm_crosscheck(prop.entry, minputs[:k], mouts[:k], prop.id)
             res.notes.append("vm_compute cross-check: " + msg)
             if not okx:
